@@ -1,4 +1,5 @@
 import BarterModel.Model.Channels
+import BarterModel.Model.Streams
 /-! Helper lemmas for sub-check C10C (channels, droppable transmitters, merged streams, run loops). -/
 namespace BarterModel.Chan
 
@@ -1049,5 +1050,194 @@ theorem sys_facts {κ : Type} (ops : List (Op κ)) :
   · intro hd
     apply hlive.2
     rw [h1, hd]; rfl
+
+theorem take_range'' (s n k : Nat) : (List.range' s n).take k = List.range' s (min k n) := by
+  induction k generalizing s n with
+  | zero => simp
+  | succ k ih =>
+    cases n with
+    | zero => simp
+    | succ n =>
+      simp only [List.range'_succ, List.take_succ_cons, ih]
+      rw [show min (k + 1) (n + 1) = min k n + 1 by omega, List.range'_succ]
+
+/-! ### the bare channel against the log-with-cursor stream, operation by operation -/
+
+/-- `t` describes channel `c` whose receiver has taken `got` so far. -/
+structure ChanRel {α : Type} (c : Chan α) (got : List α) (t : SpecChan α) : Prop where
+  listening : t.listening = c.rxAlive
+  senders : t.senders = c.senders
+  cursor : t.cursor = got.length
+  log : c.rxAlive = true → t.log = got ++ c.queue
+  got_eq : t.got = got
+
+theorem chanRel_new {α : Type} : ChanRel (Chan.new : Chan α) [] SpecChan.new := by
+  constructor <;> simp [Chan.new, SpecChan.new, SpecChan.got]
+
+theorem chanRel_send {α : Type} {c : Chan α} {got : List α} {t : SpecChan α} (h : ChanRel c got t) (x : α) :
+    ChanRel (c.send x).1 got (t.send x).1 ∧ (c.send x).2 = (t.send x).2 := by
+  obtain ⟨h1, h2, h3, h4, h5⟩ := h
+  rcases c with ⟨q, n, rx⟩
+  rcases t with ⟨log, cur, sn, li⟩
+  simp only at h1 h2 h3 h4 h5
+  subst h1 h2 h3
+  cases li with
+  | false => exact ⟨⟨rfl, rfl, rfl, by simp [Chan.send], by simpa [SpecChan.send, SpecChan.got] using h5⟩, rfl⟩
+  | true =>
+    have := h4 rfl
+    subst this
+    refine ⟨⟨rfl, rfl, rfl, by simp [Chan.send, SpecChan.send], ?_⟩, rfl⟩
+    simp [SpecChan.send, SpecChan.got]
+
+theorem chanRel_handles {α : Type} {c : Chan α} {got : List α} {t : SpecChan α} (h : ChanRel c got t) :
+    ChanRel c.cloneTx got { t with senders := t.senders + 1 } ∧
+    ChanRel c.dropTx got { t with senders := t.senders - 1 } ∧
+    ChanRel c.dropRx got { t with listening := false } := by
+  obtain ⟨h1, h2, h3, h4, h5⟩ := h
+  refine ⟨⟨h1, by simp [Chan.cloneTx, h2], h3, h4, h5⟩, ⟨h1, by simp [Chan.dropTx, h2], h3, h4, h5⟩,
+    ⟨rfl, h2, h3, by simp [Chan.dropRx], h5⟩⟩
+
+theorem chanRel_recv {α : Type} {c : Chan α} {got : List α} {t : SpecChan α} (h : ChanRel c got t)
+    (hrx : c.rxAlive = true) :
+    c.pollNext.2 = t.read.2 ∧
+    ChanRel c.pollNext.1 (match c.pollNext.2 with | .item x => got ++ [x] | _ => got) t.read.1 := by
+  obtain ⟨h1, h2, h3, h4, h5⟩ := h
+  rcases c with ⟨q, n, rx⟩
+  rcases t with ⟨log, cur, sn, li⟩
+  simp only at h1 h2 h3 h4 h5 hrx
+  subst h1 h2 h3 hrx
+  have := h4 rfl
+  subst this
+  cases q with
+  | nil =>
+    have hnone : (got ++ ([] : List α))[got.length]? = none := by simp
+    by_cases hn : sn = 0
+    · subst hn
+      refine ⟨by simp [Chan.pollNext, SpecChan.read], ?_⟩
+      constructor <;> simp_all [Chan.pollNext, SpecChan.read, SpecChan.got]
+    · refine ⟨by simp [Chan.pollNext, SpecChan.read, hn], ?_⟩
+      constructor <;> simp_all [Chan.pollNext, SpecChan.read, SpecChan.got]
+  | cons x q =>
+    have hsome : (got ++ x :: q)[got.length]? = some x := by simp
+    refine ⟨by simp [Chan.pollNext, SpecChan.read], ?_⟩
+    constructor <;> simp_all [Chan.pollNext, SpecChan.read, SpecChan.got, List.take_append, take_length_succ]
+
+/-- Invariant of the specification along histories from `SpecSys.init`: the droppable transmitter is the
+only one; the cursor never passes the log; the listener has seen the end only after the transmitter went
+off and everything delivered was read. -/
+structure SpecInv {α : Type} (t : SpecSys α) : Prop where
+  senders : t.ch.senders = if t.live then 1 else 0
+  cursor_le : t.ch.cursor ≤ t.ch.log.length
+  ended : t.sawEnd = true → t.live = false ∧ t.ch.cursor = t.ch.log.length
+
+theorem specInv_init {α : Type} (b : Bool) : SpecInv (SpecSys.init b : SpecSys α) := by
+  cases b <;> constructor <;> simp [SpecSys.init, SpecChan.new]
+
+theorem specInv_step {α : Type} {t : SpecSys α} (h : SpecInv t) (op : Op α) : SpecInv (t.step op) := by
+  obtain ⟨h1, h2, h3⟩ := h
+  rcases t with ⟨⟨log, cur, sn, li⟩, lv, se⟩
+  simp only at h1 h2 h3
+  cases op with
+  | dsend x =>
+    cases lv <;> cases li <;> constructor <;> simp_all [SpecSys.step] <;> omega
+  | disable =>
+    cases lv <;> constructor <;> simp_all [SpecSys.step]
+  | dropRx => constructor <;> simp_all [SpecSys.step]
+  | recv =>
+    cases li with
+    | false => constructor <;> simp_all [SpecSys.step]
+    | true =>
+      by_cases hc : cur < log.length
+      · have hsome : log[cur]? = some log[cur] := by simp [hc]
+        constructor <;> simp_all [SpecSys.step, SpecChan.read] <;> omega
+      · have hnone : log[cur]? = none := by simp; omega
+        cases lv <;> constructor <;> simp_all [SpecSys.step, SpecChan.read] <;> omega
+
+theorem specInv_run {α : Type} (ops : List (Op α)) {t : SpecSys α} (h : SpecInv t) : SpecInv (t.run ops) := by
+  induction ops generalizing t with
+  | nil => exact h
+  | cons op ops ih => exact ih (specInv_step h op)
+
+theorem runTicks_length_le {ε ι κ : Type} (E : Runner ε ι κ) (e : ε) (feed : List ι) :
+    (runTicks E e feed).length ≤ feed.length + 1 := by
+  induction feed generalizing e with
+  | nil => simp [runTicks]
+  | cons ev rest ih =>
+    simp only [runTicks]
+    split
+    · simp
+    · have := ih (E.proc e ev).1
+      simp only [List.length_cons]; omega
+
+/-! ### link to C12's flat merge model -/
+
+open BarterModel in
+/-- C12's hand-flattened merge state (`Model/Streams.lean`) describing a combinator-level state. -/
+inductive C12Rel : MSt Nat → Streams.MergeSt → Prop where
+  | live (cL cR : Chan Nat) (af : Bool) (a b : Streams.Side)
+      (ha : a = ⟨cL.queue, decide (cL.senders = 0), false⟩)
+      (hb : b = ⟨cR.queue, decide (cR.senders = 0), false⟩)
+      (hrl : cL.rxAlive = true) (hrr : cR.rxAlive = true) (hsl : cL.senders ≤ 1) (hsr : cR.senders ≤ 1) :
+      C12Rel (MSt.live cL cR af) ⟨a, b, af, false⟩
+  | ended (m : Streams.MergeSt) (h : m.done = true) : C12Rel none m
+
+/-- forgetting which input an item came from -/
+def untag : Streams.MOut → Poll Nat
+  | .pending => .pending
+  | .item _ x => .item x
+  | .ended => .done
+
+theorem c12_init : C12Rel (MergedSt.new Chan.new Chan.new) Streams.MergeSt.init :=
+  .live Chan.new Chan.new true _ _ rfl rfl rfl rfl (by simp [Chan.new]) (by simp [Chan.new])
+
+theorem c12_poll {st : MSt Nat} {m : Streams.MergeSt} (h : C12Rel st m) :
+    (MSt.poll st).2 = untag m.poll.2 ∧ C12Rel (MSt.poll st).1 m.poll.1 := by
+  cases h with
+  | ended m h =>
+    simp [poll_none, Streams.MergeSt.poll, Streams.MergeSt.pollWith, h, untag]
+    exact .ended m h
+  | live cL cR af a b ha hb hrl hrr hsl hsr =>
+    subst ha hb
+    rw [poll_live]
+    rcases cL with ⟨ql, sl, rl⟩
+    rcases cR with ⟨qr, sr, rr⟩
+    cases af <;> cases ql <;> cases qr <;> by_cases h1 : sl = 0 <;> by_cases h2 : sr = 0 <;>
+      simp [flatPoll, Streams.MergeSt.poll, Streams.MergeSt.pollWith, Streams.Side.poll, untag, h1, h2] <;>
+      first
+        | exact .ended _ rfl
+        | exact C12Rel.live _ _ _ _ _ (by simp [h1]) (by simp [h2]) (by simpa using hrl) (by simpa using hrr)
+            (by simp_all) (by simp_all)
+        | skip
+
+/-- a send on an input that has not been closed -/
+theorem c12_send {st : MSt Nat} {m : Streams.MergeSt} (h : C12Rel st m) (left : Bool) (x : Nat)
+    (hopen : (m.side left).closed = false) :
+    C12Rel (match st.chan left with | some c => st.setChan left (c.send x).1 | none => st)
+      (m.step (.send left x)).1 := by
+  cases h with
+  | ended m h => simpa [MSt.chan, Streams.MergeSt.step, hopen, h] using C12Rel.ended m h
+  | live cL cR af a b ha hb hrl hrr hsl hsr =>
+    subst ha hb
+    cases left <;>
+      simp only [chan_live, setChan_live, Streams.MergeSt.step, Streams.MergeSt.side, Streams.MergeSt.setSide,
+        Bool.false_eq_true, ↓reduceIte, Chan.send, hrl, hrr] at hopen ⊢ <;>
+      simp only [hopen, Bool.false_eq_true, ↓reduceIte] <;>
+      exact C12Rel.live _ _ _ _ _ (by simp_all) (by simp_all) (by simp_all) (by simp_all) hsl hsr
+
+/-- dropping the (only) transmitter of an input -/
+theorem c12_close {st : MSt Nat} {m : Streams.MergeSt} (h : C12Rel st m) (left : Bool) :
+    C12Rel (match st.chan left with | some c => st.setChan left c.dropTx | none => st)
+      (m.step (.close left)).1 := by
+  cases h with
+  | ended m h => cases left <;> exact .ended _ (by simpa [Streams.MergeSt.step, Streams.MergeSt.setSide] using h)
+  | live cL cR af a b ha hb hrl hrr hsl hsr =>
+    subst ha hb
+    cases left <;>
+      simp only [chan_live, setChan_live, Streams.MergeSt.step, Streams.MergeSt.side, Streams.MergeSt.setSide,
+        Bool.false_eq_true, ↓reduceIte]
+    · exact C12Rel.live _ _ _ _ _ rfl (by simp [Chan.dropTx]; exact decide_eq_true (by omega)) hrl hrr hsl
+        (by simp [Chan.dropTx]; omega)
+    · exact C12Rel.live _ _ _ _ _ (by simp [Chan.dropTx]; exact decide_eq_true (by omega)) rfl hrl hrr
+        (by simp [Chan.dropTx]; omega) hsr
 
 end BarterModel.Chan
